@@ -74,6 +74,12 @@ def decl_specs(tier):
             specs.append({'P': PKT('W', [('pre', I(1)), ('body', R(K))]), 'tag': 'elem-aligned %d %s b' % (al, en), 'sig': 'element alignment'})
             K2 = PKT('K', [('h', I(1)), ('l', S(elem, until={'u': 'len_eq', 'v': 2}, aligned=al)), ('z', I(1))])
             specs.append({'P': K2, 'tag': 'elem-aligned-until %d %s' % (al, en), 'sig': 'element alignment'})
+    # a byte-less field (Em / empty Data) placed beyond the data, followed by a non-empty field placed BEFORE it
+    for far in (pos(EM(), 'at', C(6)), pos(EM(), 'aligned', C(4)), pos(D(C(0)), 'at', C(7)), pos(EM(), 'aligned', C(3), ref='innermost-pkt')):
+        for back in (pos(I(1), 'at', C(2)), pos(D(C(2)), 'shift', C(-3)), pos(I(1), 'at', C(1), ref='begins')):
+            K = PKT('K', [('h', I(2)), ('e', far), ('y', back)])
+            specs.append({'P': K, 'tag': 'far %s then back %s' % (far['pos']['m'], back['pos']['m']), 'sig': 'byte-less field beyond the data'})
+            specs.append({'P': PKT('W', [('pre', I(1)), ('body', R(K)), ('post', pos(I(1), 'at', C(1)))]), 'tag': 'far/back nested', 'sig': 'byte-less field beyond the data'})
     # two positioned fields (overlap / backwards)
     for m1 in (('at', C(4), 'const', None), ('aligned', C(4), 'const', None), ('shift', C(2), 'const', None)):
         for m2 in (('shift', C(-3), 'const', None), ('at', C(1), 'const', None), ('at', C(0), 'const', 'begins'), ('aligned', C(2), 'const', 'innermost-pkt')):
